@@ -8,6 +8,7 @@
    Helper lemmas: UtapModel/Lemmas/C07.lean. -/
 import UtapModel.Lemmas.C07
 import UtapModel.Model.Builder
+import UtapModel.Model.C16
 
 namespace UtapModel.Builder
 
@@ -163,6 +164,12 @@ theorem C07_decl_is_declare (s : BState) (x : String) (hf : s.currentFun = none)
   simp [step, BState.popType, BState.addVariable, hf, BState.addSymbol, BState.scope, SState.declare, SState.top, BState.top, eraseSyms,
     addToFrame, BState.declFrame, BState.declBlock] at htop ⊢
   rw [htop]
+
+/-- every production of today's grammar (table regenerated from src/parser.y on every run; frame effect of each callback =
+    what the model's `step` does) pushes and pops scope frames in a balanced way and never pops a frame it did not push.
+    Hence the scope events of an error-free derivation are well nested (each nonterminal contributes a balanced sub-list).
+    Productions abandoned half way by error recovery are the exception shapes of C16. -/
+theorem C07_grammar_frame_balanced : UtapModel.C16.allProductionsBalanced = true := by decide +kernel
 
 /- Not proved (full statement kept):
    theorem C07_wellnested_of_grammar : for every error-free derivation of the grammar the scope events of its callback
